@@ -290,6 +290,44 @@ pub(crate) mod verif_js_op {
     }
 
     // =====================================================================================
+    // to_string (C07, C16): the string forms that do not need number formatting or array joining
+    // =====================================================================================
+    fn str_is(s: &String, w: &[u8]) -> bool {
+        let b = s.as_bytes();
+        if b.len() != w.len() {
+            return false;
+        }
+        let mut i = 0;
+        while i < w.len() {
+            if b[i] != w[i] {
+                return false;
+            }
+            i += 1;
+        }
+        true
+    }
+    //@ob name=C16.to_string.scalars props=C16,C07,C01 strength=bounded bound="null, both booleans, every 2-byte ASCII string, the empty object (numbers: serde's formatter is outside Kani; arrays: not decided)" fns=js_op::to_string replay=generic timeout=200
+    //@ desc="to_string: null -> \"null\", booleans -> \"true\"/\"false\", strings unchanged, objects -> \"[object Object]\""
+    #[cfg_attr(kani, kani::proof)]
+    #[cfg_attr(kani, kani::unwind(18))]
+    pub(crate) fn k_c16_to_string_scalars() {
+        let n = MD::new(Value::Null);
+        assert!(str_is(&MD::new(to_string(&n)), b"null"), "to_string(null) is \"null\"");
+        let t = MD::new(Value::Bool(true));
+        let f = MD::new(Value::Bool(false));
+        assert!(str_is(&MD::new(to_string(&t)), b"true") && str_is(&MD::new(to_string(&f)), b"false"), "to_string(bool)");
+        let s = MD::new(Value::String(any_ascii_string::<2>()));
+        let out = MD::new(to_string(&s));
+        match &*s {
+            Value::String(orig) => assert!(out.as_bytes().len() == 2 && out.as_bytes()[0] == orig.as_bytes()[0] && out.as_bytes()[1] == orig.as_bytes()[1], "to_string(string) is the string itself"),
+            _ => {}
+        }
+        let o = MD::new(Value::Object(serde_json::Map::new()));
+        assert!(str_is(&MD::new(to_string(&o)), b"[object Object]"), "to_string(object) is \"[object Object]\"");
+        kani::cover!(true, "checked");
+    }
+
+    // =====================================================================================
     // to_number / to_primitive dispatch (C09, C10): Number-style conversion per kind.
     // =====================================================================================
     pub(crate) fn spec_to_number(a: SV) -> Option<f64> {
